@@ -26,7 +26,7 @@ class LSim(mosaik_api_v3.Simulator):
     def _exc(self):
         # fault kind 'raise' (RuntimeError) or 'raise:<ExceptionClass>' / 'raise:plain:<ExceptionClass>'
         name = self.fault[2].split(':')[-1] if ':' in self.fault[2] else 'RuntimeError'
-        AFTER[self.sid] = 0
+        AFTER.setdefault(self.sid, 0)         # (a repeated request that fails again must not reset the count)
         self.failed = True
         return {'RuntimeError': RuntimeError, 'StopIteration': StopIteration, 'KeyError': KeyError, 'ValueError': ValueError}[name]('injected fault')
     def _seen(self):
@@ -34,6 +34,7 @@ class LSim(mosaik_api_v3.Simulator):
     def _fault(self, kind):
         f = self.fault
         if f and f[0] == kind and self.n[kind] == f[1]:
+            if ':once:' in f[2]: self.n[kind] += 1        # a transient failure: the same request would succeed if it were repeated
             raise self._exc()
         self.n[kind] += 1
     def setup_done(self):
@@ -71,6 +72,18 @@ class PSim(LSim):
         return {'e': {'po': self.n['step']}}
 
 
+class OSim(PSim):
+    """a simulator written for both mosaik 2 and 3: announces API version 2.2 (so it is wrapped in the version adapters),
+    plain handlers, step accepts max_advance as an optional third argument"""
+    def __init__(self):
+        super().__init__()
+        self.meta = dict(self.meta, api_version='2.2')
+    def init(self, sid, fault=None, typ='time-based', **kw):
+        return super().init(sid, fault=fault, typ=typ)
+    def step(self, time_, inputs, max_advance=None):
+        return super().step(time_, inputs, max_advance)
+
+
 def children():
     """live (non-zombie) and zombie child processes of this process"""
     me = os.getpid(); live, zomb = [], []
@@ -97,7 +110,7 @@ def one(topology, faulty, fkind, req, index, remote):
     FINALIZED.clear(); STEPS.clear(); AFTER.clear()
     logf = tempfile.mktemp(prefix='c14-', suffix='.log', dir=common.BUILD)
     n = 2 if topology in ('pair', 'trig') else 3      # 'trigfree': A -> B (event-based, waits for triggers) and an unconnected third simulator
-    cfg = {'L': {'python': 'harness.props.c14:LSim'}, 'P': {'python': 'harness.props.c14:PSim'},
+    cfg = {'L': {'python': 'harness.props.c14:LSim'}, 'P': {'python': 'harness.props.c14:PSim'}, 'O': {'python': 'harness.props.c14:OSim'},
            'R': {'cmd': f'{common.PY} -m harness.remote_sim %(addr)s', 'env': {'PYTHONPATH': f'{common.REPO}:{common.VERIF}', 'LOGURU_LEVEL': 'CRITICAL'}}}
     tw = TaskWarnings(); alog = logging.getLogger('asyncio'); old_level = alog.level
     alog.addHandler(tw); alog.setLevel(logging.ERROR)
@@ -118,7 +131,7 @@ def one(topology, faulty, fkind, req, index, remote):
             elif remote == 'all':
                 ents.append(w.start('R', sim_id=f'S{i}', beh={'type': 'time-based', 'step_size': 1, 'default_output': [None, ['po']]}, log=logf, seed=i, fault=None).M())
             else:
-                ents.append(w.start('P' if (i == faulty and ':plain:' in fkind) else 'L', sim_id=f'S{i}', fault=fault, typ=('event-based' if topology in ('trig', 'trigfree') and i == 1 else 'time-based')).M())
+                ents.append(w.start('O' if (i == faulty and ':old:' in fkind) else 'P' if (i == faulty and ':plain:' in fkind) else 'L', sim_id=f'S{i}', fault=fault, typ=('event-based' if topology in ('trig', 'trigfree') and i == 1 else 'time-based')).M())
         for i in range((n - 1) if topology not in ('free', 'trigfree') else 1):
             w.connect(ents[i], ents[i + 1], ('po', 'i'))      # 'free': A->B and an unconnected third simulator
         try:
@@ -191,7 +204,9 @@ def cases(tier):
                     out.append((topology, faulty, 'raise', req, index, False))
                     # other exception classes, generator-style and plain handlers (in-process)
                     if index <= 1 and (tier == 'thorough' or topology in ('pair', 'trig')):
-                        for fk in ('raise:plain:RuntimeError', 'raise:plain:StopIteration', 'raise:StopIteration', 'raise:plain:KeyError'):
+                        for fk in ('raise:plain:RuntimeError', 'raise:plain:StopIteration', 'raise:StopIteration', 'raise:plain:KeyError',
+                                   'raise:old:ValueError', 'raise:old:RuntimeError', 'raise:old:once:ValueError', 'raise:plain:once:ValueError'):
+                            # (':old:' = the failing simulator announces API 2.2 and is reached through the version adapters)
                             if tier == 'thorough' or fk != 'raise:plain:KeyError':
                                 out.append((topology, faulty, fk, req, index, False))
                     if tier == 'thorough' or (index <= 1 and topology == 'pair') or (topology == 'chain' and faulty == 1 and index == 1):
@@ -238,7 +253,7 @@ def run(out, info, tier, seed):
         out.violations.append(dict(kind='fault', observed=[f'{zombies} zombie child processes']))
     out.coverage = {'evaluations': n_eval, 'distinct_nontrivial': nontriv,
                     'rule': 'topologies pair (A->B) and chain (A->B->C) x failing simulator x request (setup_done, step #0/#1/#3, get_data #0/#2) x fault kind '
-                            '(exception in handler: RuntimeError / StopIteration / KeyError raised by generator-style and by plain handlers; for subprocess simulators also os._exit) x transport of the failing simulator (in-process / subprocess; thorough: all combinations); '
+                            '(exception in handler: RuntimeError / StopIteration / KeyError / ValueError raised by generator-style and by plain handlers, also by a simulator announcing API 2.2 behind the version adapters; for subprocess simulators also os._exit) x transport of the failing simulator (in-process / subprocess; thorough: all combinations); '
                             'plus the moment of the failure swept over 14 (thorough: 30) event-loop iterations for an unconnected failing simulator next to a triggered simulator that waits for its next step to settle; '
                             'non-trivial = fault during the stepping phase',
                     'samples': samples, 'outcome_histogram': dict(hist), 'monitor_failures': len(violations), 'zombie_children': zombies}
